@@ -137,6 +137,46 @@ def run_case(case, ctx):
             order = p + 2
             kw['order'] = order
 
+        shapes = {4: [(2, 2)], 6: [(2, 3), (3, 2)], 8: [(2, 4), (4, 2), (2, 2, 2)], 9: [(3, 3)], 2: [(2,)], 3: [(3,)], 5: [(5,)], 7: [(7,)]}
+        if case['size'] and not opts.get('step') and form == 'native':
+            # an array of poles (each entry its own pole: f(z) = g(z) / (z - z0_k)^p elementwise), 1 to 3 dimensions, in C or
+            # Fortran memory order
+            size = case['size']
+            zs = z0 + 0.1 * np.arange(size) * (1 if not isinstance(z0, complex) else (1 + 0.5j))
+            shp = shapes[size][int(rng.integers(0, len(shapes[size])))]
+            zarr = zs.reshape(shp)
+            if len(shp) >= 2 and rng.random() < 0.6:
+                zarr = np.asfortranarray(zarr)
+                ctx.count('residue_array_fortran_order')
+            ctx.count('residue_array_cases')
+            zarr_keep = zarr.copy(order='K')        # (the user's own array of poles has the same layout)
+            gexp = np.array([complex(g(v)) for v in zs]).reshape(shp)
+
+            def fa(z):
+                return g(z) / (z - zarr_keep) ** p
+            try:
+                with np.errstate(all='ignore'):
+                    val, info = Residue(fa, pole_order=p, **kw)(zarr)
+            except Exception as exc:
+                ctx.reject('residue_raised', observed='%s: %s' % (type(exc).__name__, str(exc)[:150]),
+                           exc_type=type(exc).__name__, path=path, complex_z0=isinstance(z0, complex), array=True)
+                return
+            val = np.asarray(val)
+            est_a = np.abs(np.asarray(info.error_estimate, dtype=float))
+            if val.shape != tuple(shp):
+                ctx.reject('limit_result_shape', observed=list(val.shape), expected=list(shp), residue=True)
+                return
+            est_a = np.broadcast_to(est_a, val.shape) if est_a.size in (1, val.size) else np.full(val.shape, float(np.max(est_a)))
+            for idx in np.ndindex(*shp):
+                ctx.count('residue_values_asserted')
+                b_ = K_EST * float(est_a.reshape(val.shape)[idx]) + 1e-10 * abs(gexp[idx])
+                if not abs(complex(val[idx]) - gexp[idx]) <= b_:
+                    ctx.reject('residue_value', observed=complex(val[idx]), expected=complex(gexp[idx]),
+                               detail=dict(est=float(est_a.reshape(val.shape)[idx]), pole_order=p, order=order, position=list(idx), shape=list(shp)),
+                               path=path, method=method, pole_order=p, array=True)
+                    return
+            return
+
         def f(z):
             return g(z) / (z - z0) ** p
         rec = Recorder(f)
@@ -185,6 +225,9 @@ def run_case(case, ctx):
         shapes = {4: [(2, 2)], 6: [(2, 3), (3, 2)], 8: [(2, 4), (4, 2), (2, 2, 2)], 9: [(3, 3)]}.get(size)
         if shapes and rng.random() < 0.7:
             zin = zs.reshape(shapes[int(rng.integers(0, len(shapes)))])
+            if rng.random() < 0.4:
+                zin = np.asfortranarray(zin)
+                ctx.count('multidimensional_array_fortran_order')
             ctx.count('multidimensional_array_cases')
     else:
         zin, regular, zs = z0_given, np.array([False]), np.array([z0])
